@@ -363,7 +363,7 @@ def _emission(chk, fi, fm, loop) -> None:
         stores = {"bph": pm.bph or stores["bph"], "br": pm.br or stores["br"]}
     except Exception:
         pass
-    chk.robust |= {"bph-emission"}
+    chk.robust |= {"bph-emission", "sorted-emission"}
     for tag, cls, en in (("bph", "BasePhosphate", "BPh"), ("br", "BaseRibose", "BR")):
         c11e.check_bph_emission(chk, fi, stores[tag], cls, en)
     # base pair emission
